@@ -60,6 +60,24 @@ def main(tier):
             if profile == "release":
                 for s in summary.get("samples", [])[:2]:
                     chk.sample({"text": s})
+    if tier == "thorough":
+        # AddressSanitizer pass (secondary net: the crate forbids unsafe code, reports can only come from logos / codespan / std)
+        import shutil
+        logd = WORK / "asan_c12"
+        shutil.rmtree(logd, ignore_errors=True)
+        logd.mkdir(parents=True)
+        opts = {"ASAN_OPTIONS": f"log_path={logd}/asan:halt_on_error=1:abort_on_error=1:detect_leaks=0"}
+        for spec in ({"tag": "seq", "mode": "front", "items": ttext.ALPHABET, "max_len": 3, "sep": " "},
+                     {"tag": "list", "mode": "front", "texts_file": str(tf)}):
+            anomalies, summary = ttext.run_enum(spec, "asan", env_extra=opts)
+            chk.count("asan_texts", summary.get("total", 0))
+            for d in summary.get("died", []):
+                chk.violation("asan:process-died", f"AddressSanitizer build of the front end died (rc={d[1]})", {"spec": d[0], "logs": [p.read_text()[:1500] for p in logd.glob("asan*")][:2]})
+        reports = list(logd.glob("asan*"))
+        chk.count("asan_reports", len(reports))
+        for r in reports[:3]:
+            chk.violation("asan:report", "AddressSanitizer report in the front end: " + r.read_text()[:300], {"log": r.read_text()[:3000]})
+        shutil.rmtree(logd, ignore_errors=True)
     chk.evaluations = total
     # distinct non-trivial: measured in the release pass only (the dev pass repeats the same texts)
     chk.nontrivial = set(range(with_diags))
